@@ -519,12 +519,12 @@ def commandTail : M (Option Nat) := do
       regPut 46 (cmd.takeWhile (· != 0)) 0
     pure (some mod)
   if c == 2 then do        -- ^B
-    if ← scrollBackward (max 1 a1 * (s.xrows - 1)) then fin 0 else
+    if ← scrollBackward (min (max 1 a1) (lenOf s) * (s.xrows - 1)) then fin 0 else
     let s ← get
     setOff (indents (lines s) s.ed.xrow)
     fin VC_COL
   else if c == 6 then do   -- ^F
-    if ← scrollForward (max 1 a1 * (s.xrows - 1)) then fin 0 else
+    if ← scrollForward (min (max 1 a1) (lenOf s) * (s.xrows - 1)) then fin 0 else
     let s ← get
     setOff (indents (lines s) s.ed.xrow)
     fin VC_COL
